@@ -342,7 +342,7 @@ def roundtrip_one(c: dict, root: str, built: dict) -> list[tuple[str, str]]:
     cfg = c["cfg"]
     cname = CLASSES[cfg["cls"]].__name__
     sp = c["spelling"]
-    tag = f"{cname} act={cfg['act']} obs={cfg['obs']} kw={cfg['kw']} key={c['key']} fill={c['fill']} path={SPELLINGS[sp]!r}({'Path' if c['as_path'] else 'str'}{', jit' if c.get('jit') else ''}{(', a later checkpoint saved under the same stem' if c['sibling'] == 'later-same-stem' else ', pre-existing ' + c['sibling'] + ' named like the suffix-less path') if c.get('sibling') else ''})"
+    tag = f"{cname} act={cfg['act']} obs={cfg['obs']} kw={cfg['kw']} key={c['key']} fill={c['fill']} path={SPELLINGS[sp]!r}({'Path' if c['as_path'] else 'str'}{', jit' if c.get('jit') else ''}{', no_suffix=True' if c.get('no_suffix') else ''}{(', a later checkpoint saved under the same stem' if c['sibling'] == 'later-same-stem' else ', pre-existing ' + c['sibling'] + ' named like the suffix-less path') if c.get('sibling') else ''})"
     bk = json.dumps([cfg, c["key"]], sort_keys=True)
     try:
         if bk not in built:
@@ -358,6 +358,13 @@ def roundtrip_one(c: dict, root: str, built: dict) -> list[tuple[str, str]]:
     path = spell(root, sp, c["as_path"])
     parent = os.path.dirname(str(path))
     preexisting: list[str] = []
+    if c.get("earlier_default_save"):
+        try:
+            _, other = build(cfg, c["key"] + 17)
+            other.serialize(path)
+            jax.effects_barrier()
+        except Exception as e:
+            return [(f"C18/roundtrip/serialize-raised/{sp}/{type(e).__name__}", f"{tag}: an earlier default save to the same path raised {type(e).__name__}: {str(e)[:300]}")]
     if c.get("sibling") and Path(str(path)).suffix == "":
         # environment answer: the file system already holds an entry named exactly like the suffix-less path
         try:
@@ -378,6 +385,8 @@ def roundtrip_one(c: dict, root: str, built: dict) -> list[tuple[str, str]]:
     try:
         if c.get("jit"):
             eqx.filter_jit(lambda p: p.serialize(path))(policy)
+        elif c.get("no_suffix"):
+            policy.serialize(path, no_suffix=True)  # documented option of serialize; the same path must still load the policy
         else:
             policy.serialize(path)
         jax.effects_barrier()
@@ -837,6 +846,17 @@ def _explore(ctx: Ctx):
                     cases.append(c)
                     ctx.guard(f"sibling:{sib}")
 
+    # serialize(path, no_suffix=True) followed by deserialize(path): alone in a fresh directory, and after an earlier default save of a
+    # DIFFERENT policy under the same suffix-less path (the file just written must be the one restored)
+    for lst in G.values():
+        for cfg in (lst[0], lst[-1]):
+            for sp in ("plain", "newdir", "eqx", "dotted"):
+                for sib in (None, "stale-default-save"):
+                    if sib and sp not in ("plain", "newdir"):
+                        continue
+                    cases.append({"cfg": cfg, "key": keys[0], "load_key": load_keys[0], "fill": "init", "spelling": sp, "as_path": False, "no_suffix": True,
+                                  "earlier_default_save": bool(sib), "outputs": False})
+                    ctx.guard("no-suffix-cases")
     for lst in G.values():
         for cfg in (lst[0], lst[-1]) if not thorough else lst:
             for sp in ("dotted", "plain", "eqx"):
